@@ -60,7 +60,7 @@ func nextIn(q []int, k int) (int, bool) {
 
 type passStats struct {
 	comparisons, admitted, rejected, forced, randomAdmissions int64
-	diverged                                                    bool
+	diverged                                                  bool
 }
 
 // follow consumes the eviction sequence of one pass. freq gives the estimates at the start of the pass.
